@@ -135,6 +135,18 @@ def run(ctx):
             worker_errs.append(pr.stderr[-1500:])
         else:
             indep = json.load(open(iout))
+    # histories that contain MCMC kernel applications (C05): mala / hmc / mh steps on Gaussian programs with
+    # scripted noise - frame (never-selected addresses keep their values), accept rule and coherence of the result
+    kern = []
+    if pid == "C05":
+        import p_mcmc
+        kcases, kbad, kerrs, kcoq = p_mcmc.kernel_stream(ctx, 40 if ctx.tier == "quick" else 400, 2 if ctx.tier == "quick" else 8,
+                                                          tag="c05k", seed_shift=50)
+        for kc in kcases:
+            kc["gkind"], kc["kind"] = kc["kind"], "kernel"
+        kern = kcases
+        worker_errs += kerrs
+        coq_errs += kcoq
     # coverage statistics
     seen, distinct_nt = set(), 0
     feat, kinds, errk, opsk = Counter(), Counter(), Counter(), Counter()
@@ -153,6 +165,11 @@ def run(ctx):
             seen.add(h)
             if nontrivial(c):
                 distinct_nt += 1
+    if kern:
+        offk = len(all_cases)
+        all_cases = all_cases + kern
+        bad = bad + [(offk + i, a, s_, x) for (i, a, s_, x) in kbad]
+        distinct_nt += len({json.dumps([c.get("model"), c.get("sel"), c.get("xs")], sort_keys=True) for c in kern if "err" not in c})
     off = len(all_cases)
     all_cases = all_cases + indep
     bad = bad + [(off + i, False, False, False) for i, c in enumerate(indep) if not c.get("ok")]
@@ -161,14 +178,17 @@ def run(ctx):
         "cases": all_cases, "bad": bad, "worker_errs": worker_errs, "coq_errs": coq_errs,
         "coverage": {
             "evaluations": len(all_cases), "distinct_nontrivial": distinct_nt,
-            "rule": "law under seed (C01/C02 only): @gen programs of 2-4 consecutive stochastic sub-calls (Scan, nested fn, plain site; optionally a site that generate constrains "
+            "rule": "kernel steps (C05 only): mala / hmc / mh applications with scripted noise on Gaussian programs (nested, vectorised, site inside a Cond) judged by Model/CorrMcmc.v - "
+                    "final values of every site (frame), accept rule, and coherence of the returned trace (score = -assess of its choices under the recorded arguments, return value).  "
+                    "law under seed (C01/C02 only): @gen programs of 2-4 consecutive stochastic sub-calls (Scan, nested fn, plain site; optionally a site that generate constrains "
                     "in between) over a key-echo distribution, seeded simulate / generate (eager and jit): all site keys pairwise distinct.  "
                     "random programs over {stub dist, @gen fn, Cond, Vmap, Scan} (depth<=2, <=4 sites per fn) with "
                     "random integer arguments/constraints/selections; each case is run on the implementation "
                     "(through the overlay) and on the Coq model (vm_compute) and judged against the spec semantics; "
                     "non-trivial = distinct (program,args,constraint,ops) with >=2 sites (and >=1 successful op / a non-None constraint)",
             "histogram": {"kinds": kinds, "programs_containing": feat, "impl_errors": errk, "ops": opsk,
-                          "seeded_independence": {"cases": len(indep), "keys": sum(c.get("nkeys", 0) for c in indep)}},
+                          "seeded_independence": {"cases": len(indep), "keys": sum(c.get("nkeys", 0) for c in indep)},
+                                       "kernel_steps": Counter(c.get("gkind") for c in kern)},
             "samples": [{k: c[k] for k in c if k != "feat"} for c in all_cases[:2]],
         },
     }
@@ -186,7 +206,7 @@ def replay(ctx, payload):
     import subprocess
     import overlay
     case = payload.get("case", payload)
-    if case.get("kind") == "indep":
+    if case.get("kind") in ("indep", "kernel"):
         # the seeded-independence stream is regenerated from the run's seed: re-run the whole quick check
         return run(ctx)
     corpus = os.path.join(ctx.scratch, "replay_corpus.json")
